@@ -9,6 +9,7 @@ import (
 	"fmt"
 	"os"
 	"sort"
+	"strings"
 	"testing"
 
 	"github.com/advancedclimatesystems/gonnx/onnx"
@@ -380,7 +381,7 @@ func TestC15(t *testing.T) {
 			names := opset13.GetOpNames()
 			sort.Strings(names)
 			base := rapid.SampledFrom(names).Draw(rt, "base")
-			name := rapid.SampledFrom([]string{"", "abs", "ABS", base + " ", " " + base, base[:len(base)-1], base + "2", "Identity", "com.microsoft." + base, "ai.onnx." + base, "ai.onnx.ml." + base, "onnx::" + base}).Draw(rt, "variant")
+			name := rapid.SampledFrom([]string{"", "abs", "ABS", base + " ", " " + base, base[:len(base)-1], base + "2", base + "\x00", base + "\x00\x00", "\x00" + base, base + "\t", base + "\n", strings.ToLower(base), strings.ToUpper(base), base + base, "Identity", "com.microsoft." + base, "ai.onnx." + base, "ai.onnx.ml." + base, "onnx::" + base}).Draw(rt, "variant")
 			if rapid.Bool().Draw(rt, "random") {
 				name = rapid.StringMatching(`[A-Za-z]{1,12}`).Draw(rt, "name")
 			}
